@@ -112,8 +112,9 @@ Definition block_dirs (b : bucket) : list N := dedupN (map (fun kv => fst (fst k
 Inductive ckres := CkOk (n : nat) (metas : list (Z * Z)) | CkStop.
 
 (* lazyOverlapChecker.sync after the Iter call: one Get(meta.json) per block directory; a
-   directory without (parseable) meta.json - a partial upload - is an error; blocks with
-   other external labels are skipped *)
+   directory without meta.json - a partial upload, e.g. left by a crashed sync - is ignored
+   (fix C35: it used to fail the whole Sync); an unparseable meta.json is an error; blocks
+   with other external labels are skipped *)
 Fixpoint checker_gets (f : fault) (L : locals) (lbl : option N) (b : bucket) (n : nat)
          (dirs : list N) (acc : list (Z * Z)) : ckres :=
   match dirs with
@@ -125,6 +126,7 @@ Fixpoint checker_gets (f : fault) (L : locals) (lbl : option N) (b : bucket) (n 
           | Some (MetaO _ _ l), Some i =>
               let same := match lbl with Some l' => N.eqb l l' | None => false end in
               checker_gets f L lbl b (S n) r (if same then acc ++ [(l_mint i, l_maxt i)] else acc)
+          | None, _ => checker_gets f L lbl b (S n) r acc     (* partial upload: not a block yet, ignored *)
           | _, _ => CkStop
           end
       | _ => CkStop
@@ -287,6 +289,40 @@ Definition meta_lbl_ok (lbl : option N) (o : bop) : bool :=
 
 Definition mf_list (mf : option (list N)) : list N := match mf with Some l => l | None => [] end.
 
+(* ---- no wedge: an undisturbed sync fails only for a reason that the operator can see ---- *)
+(* time ranges of the visible blocks with the given external labels *)
+Definition visible_ranges (L : locals) (b : bucket) (lbl : N) : list (Z * Z) :=
+  flat_map (fun d => match bget b (d, FMeta), linfo_of L d with
+                     | Some (MetaO _ _ l), Some i => if N.eqb l lbl then [(l_mint i, l_maxt i)] else []
+                     | _, _ => []
+                     end) (block_dirs b).
+
+Definition is_nofault (f : fault) : bool := match f with NoFault => true | _ => false end.
+
+(* a sync without fault and with external labels that returns an error must have a compacted
+   block that is blocked by an overlap in the bucket (leftovers of crashed uploads are no reason) *)
+Definition wedge_ok (L : locals) (c : cfg) (ret : bool) (post : bucket) : bool :=
+  if is_nofault (c_fault c) && negb ret then
+    match c_lbl c with
+    | None => true
+    | Some lbl =>
+        existsb (fun id => match linfo_of L id with
+                           | Some i => eligible c i && negb (N.leb (l_level i) 1) && negb (c_ooo c)
+                                       && negb (bhas post (id, FMeta))
+                                       && overlaps ((l_mint i, l_maxt i) :: visible_ranges L post lbl)
+                           | None => false
+                           end) (c_present c)
+    end
+  else true.
+
+(* no two local blocks overlap in time *)
+Fixpoint ranges_disjoint_b (L : locals) : bool :=
+  match L with
+  | [] => true
+  | (_, i) :: r => forallb (fun q => negb (ranges_meet (l_mint i, l_maxt i) (l_mint (snd q), l_maxt (snd q)))) r
+                   && ranges_disjoint_b r
+  end.
+
 (* [st]: the real bucket and meta file before the sync *)
 Definition pred_step (L : locals) (st : state) (s : step) : bool * state :=
   match s with
@@ -308,11 +344,24 @@ Definition pred_step (L : locals) (st : state) (s : step) : bool * state :=
        (post, mf))
   end.
 
+(* the same fold, for the no-wedge clause *)
+Fixpoint wedge_steps (L : locals) (b : bucket) (l : list step) : bool :=
+  match l with
+  | [] => true
+  | (c, ret, _, snaps, _) :: r =>
+      let post := last snaps b in wedge_ok L c ret post && wedge_steps L post r
+  end.
+
 Fixpoint pred_steps (L : locals) (st : state) (l : list step) : bool :=
   match l with
   | [] => true
   | s :: r => let (ok, st') := pred_step L st s in ok && pred_steps L st' r
   end.
 
-Definition pred_ok (c : case) : bool :=
+Definition pred_core (c : case) : bool :=
   match c with CSync _ L steps => pred_steps L ([], None) steps end.
+
+Definition wedge_all (c : case) : bool :=
+  match c with CSync _ L steps => wedge_steps L [] steps end.
+
+Definition pred_ok (c : case) : bool := pred_core c && wedge_all c.
